@@ -79,6 +79,33 @@ def analyse(spec, pc_directed=True):
             continue
         supplied.add(x)
         stack.extend(adj[x] - supplied)
+    # thermal supply: reachable from an in-service temperature-fixing feeder through hydraulically active branches
+    # (prescribed-flow elements carry fluid and therefore temperature, although they do not pass pressure)
+    troots = set()
+    for o in ops:
+        if o["op"] == "ext_grid" and o.get("in_service", True) and "t" in o.get("type", "pt").replace("auto", "pt") and o["junction"] in supplied:
+            troots.add(o["junction"])
+        if o["op"] in ("circ_pump_mass", "circ_pump_pressure") and o.get("in_service", True) and o["flow"] in supplied:
+            troots.add(o["flow"])
+    tadj = {k: set(v) & supplied for k, v in adj.items() if k in supplied}
+    for o in ops:
+        if o["op"] in ("heat_consumer", "flow_control") and o.get("in_service", True):
+            a, b = ends(o)
+            if a in supplied and b in supplied:
+                tadj[a].add(b)
+                tadj[b].add(a)
+        if o["op"] == "press_control" and o.get("in_service", True):
+            a, b = ends(o)
+            if a in supplied and b in supplied:
+                tadj[b].add(a)
+    tsupplied = set()
+    stack = list(troots)
+    while stack:
+        x = stack.pop()
+        if x in tsupplied:
+            continue
+        tsupplied.add(x)
+        stack.extend(tadj.get(x, set()) - tsupplied)
     expect = {}
     for o in ops:
         k = o["op"]
@@ -95,7 +122,18 @@ def analyse(spec, pc_directed=True):
                 expect[o["id"]] = bool(on and pipe_end(o, a) in supplied and pipe_end(o, b) in supplied)
             else:
                 expect[o["id"]] = bool(on and a in supplied and b in supplied)
-    return {"supplied": supplied, "roots": roots, "expect": expect, "ambiguous": ambiguous, "pi": pi}
+    texpect = {}
+    for o in ops:
+        if o["op"] in BRANCH_OPS and expect.get(o["id"]):
+            a, b = ends(o)
+            if b is None:
+                texpect[o["id"]] = a in tsupplied
+            elif o["op"] in ("pipe", "pipe_std"):
+                texpect[o["id"]] = pipe_end(o, a) in tsupplied and pipe_end(o, b) in tsupplied
+            else:
+                texpect[o["id"]] = a in tsupplied and b in tsupplied
+    return {"supplied": supplied, "roots": roots, "expect": expect, "ambiguous": ambiguous, "pi": pi, "tsupplied": tsupplied,
+            "texpect": texpect}
 
 
 def prune(spec, an=None):
